@@ -72,7 +72,7 @@ func (w *world) genDexTx(n *node) *genTx {
 	w.focus(n)
 	sm := n.ctl.FSM
 	h := sm.Height()
-	fee := uint64(10000)
+	fee := uint64(10000) + []uint64{0, 1, 777, 10000}[t.Pick(4, 1, 1, 2)]
 	from := w.pickActor(nil)
 	bal := uint64(0)
 	if acc, err := sm.GetAccount(crypto.NewAddressFromBytes(from.addr)); err == nil && acc != nil {
